@@ -1,8 +1,11 @@
 (* C13 — Login plugin messages are answered exactly once by the matching consumer.
    Only statements and `exact`; the proofs are in Proofs/C13.v.
 
-   Model/LoginInbound.v has two variants: Impl (the code as it is) and Spec (the completion
-   callback is taken out of the struct inside the critical section that decides to run it).
+   Model/LoginInbound.v has two variants: Impl = the code as it is (fix commit 7206740: the
+   completion callback is taken out of the struct inside the critical section that decides to run
+   it) and Prefix = the PRE-fix code of finding C13-1 (the callback was never cleared).  The
+   theorems about the completion are stated for Impl; the last one records the defect as a fact
+   about Prefix.  The other theorems hold for both variants (v is quantified).
    Atomic actions = the critical sections and unlocked effects of SendLoginPluginMessage
    (s_alloc, s_register, s_write), handleLoginPluginResponse (r_lookup, r_consume, r_check,
    r_complete), loginEventFired (f_fire, f_flush) and clearOnAllMessagesHandled.  "All schedules" =
@@ -63,12 +66,12 @@ Print Assumptions C13_relay_at_most_once.
 
 (* ... and a whole response call for an outstanding id invokes its consumer exactly once with the
    reply; for a relay consumer it writes exactly one response with that reply to the backend.  The
-   same statement says when the completion runs in Spec: iff nothing is outstanding after the
+   same statement says when the completion runs (code as it is): iff nothing is outstanding after the
    consumer ran and a callback is kept, which is then dropped. *)
 Theorem C13_answered_exactly_once :
   forall s id k ok data,
   locals s <> [] -> mfind id (outstanding s) = Some k ->
-  let r := step_op Spec s (OResponse id ok data) in
+  let r := step_op Impl s (OResponse id ok data) in
   let done := is_nil (outstanding (fst r)) in
   fired (fst r) = fired s
   /\ on_all (fst r) = (if done then false else on_all s)
@@ -81,57 +84,58 @@ Theorem C13_answered_exactly_once :
 Proof. exact response_hit_seq. Qed.
 Print Assumptions C13_answered_exactly_once.
 
-(* "The login-completion step runs exactly once ..." — Spec, every schedule: never more often than
-   the pre-login event fired. *)
-Theorem C13_completion_at_most_once_spec :
+(* "The login-completion step runs exactly once ..." — the code as it is (Impl), every schedule:
+   never more often than the pre-login event fired. *)
+Theorem C13_completion_at_most_once :
   forall pok n (ts : list (@thread state event)) sched,
-  (forall a, In a (concat ts) -> is_action Spec a) ->
+  (forall a, In a (concat ts) -> is_action Impl a) ->
   let evs := events (run ts sched (init pok n)) in
   count_completion evs <= count_fire evs.
 Proof. exact completion_at_most_once_all. Qed.
-Print Assumptions C13_completion_at_most_once_spec.
+Print Assumptions C13_completion_at_most_once.
 
-(* "... after the pre-login event and after every outstanding message has been answered" — Spec,
-   every history of whole calls in which the event fires at most once, the client answers only
+(* "... after the pre-login event and after every outstanding message has been answered" — the
+   code as it is (Impl), every history of whole calls in which the event fires at most once, the client answers only
    after it and the callback is not cleared ([adm]): the completion has run at most once; not at
    all before the event; exactly once as soon as the event has fired and nothing is outstanding;
    and while something is outstanding and it has not run, the callback is still kept. *)
-Theorem C13_completion_exactly_once_spec :
+Theorem C13_completion_exactly_once :
   forall pok n os,
   0 < n -> adm false os = true ->
-  let r := run_ops Spec (init pok n) os in
+  let r := run_ops Impl (init pok n) os in
   let c := count_completion (concat (snd r)) in
   c <= 1
   /\ (fired (fst r) = false -> c = 0)
   /\ (fired (fst r) = true -> outstanding (fst r) = [] -> c = 1)
   /\ (fired (fst r) = true -> outstanding (fst r) <> [] -> c = 0 -> on_all (fst r) = true).
-Proof. exact completion_exactly_once_spec. Qed.
-Print Assumptions C13_completion_exactly_once_spec.
+Proof. exact completion_exactly_once_impl. Qed.
+Print Assumptions C13_completion_exactly_once.
 
-(* REFUTED for the code as it is (finding C13-1): one fire, two completions.  The event fires with
-   nothing queued (the completion runs), then a handler sends a message and the client answers it:
-   the callback was never cleared and runs again.  Spec runs it once on the same history. *)
-Theorem C13_completion_exactly_once_impl_refuted :
+(* Finding C13-1 (fixed by commit 7206740), recorded as a fact about the PRE-fix code: it REFUTED
+   exactly-once — one fire, two completions.  The event fires with nothing queued (the completion
+   runs), then a handler sends a message and the client answers it: the callback was never
+   cleared and ran again.  Today's code (Impl) runs it once on the same history. *)
+Theorem C13_completion_exactly_once_prefix_refuted :
   let h := [OFire; OSend (CPlain 1) [1%N]; OResponse 1 true []] in
-  let evs := concat (snd (run_ops Impl (init true 1) h)) in
+  let evs := concat (snd (run_ops Prefix (init true 1) h)) in
   count_fire evs = 1 /\ count_completion evs = 2
-  /\ count_completion (concat (snd (run_ops Spec (init true 1) h))) = 1.
-Proof. exact impl_completion_refuted_witness. Qed.
-Print Assumptions C13_completion_exactly_once_impl_refuted.
+  /\ count_completion (concat (snd (run_ops Impl (init true 1) h))) = 1.
+Proof. exact prefix_completion_refuted_witness. Qed.
+Print Assumptions C13_completion_exactly_once_prefix_refuted.
 
 (* ---------- the premises are met ---------- *)
 
 (* One send, one response for its id and the event, as three goroutines: over ALL 1260 interleavings
-   of their 3+4+2 atomic steps (Spec) the consumer ran at most once and the completion at most
+   of their 3+4+2 atomic steps (Impl) the consumer ran at most once and the completion at most
    once; schedules in which both happened exist.
-   (Proofs.C13.nv_threads Spec = [send_thread 0 (CPlain 1) [1]; response_thread Spec 1 1 (Some []);
-   fire_thread Spec 2]; Proofs.C13.nv_check = forallb over Base.Conc.outcomes from init true 3 of
+   (Proofs.C13.nv_threads Impl = [send_thread 0 (CPlain 1) [1]; response_thread Impl 1 1 (Some []);
+   fire_thread Impl 2]; Proofs.C13.nv_check = forallb over Base.Conc.outcomes from init true 3 of
    count_cons 1 <=? 1, count_completion <=? 1, count_reg 1 =? 1, count_fire =? 1, an existsb of both
    = 1, and length = 1260.  Stated through the constants so that re-checking this file does not
    re-evaluate them.) *)
 Example C13_nonvacuous_all_schedules :
-  (forall a, In a (concat (nv_threads Spec)) -> is_action Spec a) /\ nv_check = true.
-Proof. exact (conj (nv_threads_actions Spec) nv_check_ok). Qed.
+  (forall a, In a (concat (nv_threads Impl)) -> is_action Impl a) /\ nv_check = true.
+Proof. exact (conj (nv_threads_actions Impl) nv_check_ok). Qed.
 
 (* An admissible history with a consumer that sends two more messages, a relayed backend message, a
    failed, a duplicate and an unknown response: everything answered, one completion, the backend got
@@ -141,7 +145,7 @@ Example C13_nonvacuous_history :
             OResponse 2 true [9%N]; OResponse 1 false []; OResponse 3 true []; OResponse 3 true [];
             OResponse 4 true [5%N]; OResponse 99 true []] in
   adm false h = true
-  /\ let r := run_ops Spec (init true 1) h in
+  /\ let r := run_ops Impl (init true 1) h in
      fired (fst r) = true /\ outstanding (fst r) = []
      /\ count_completion (concat (snd r)) = 1
      /\ In (EBackend 2 7 (Some [9%N])) (concat (snd r))
